@@ -790,8 +790,9 @@ def instances(tier):
     for a, b, want in [(-inf, -inf, -inf), (-inf, 0.0, 0.0), (0.0, -inf, 0.0), (-inf, 1.5, 1.5), (-745.0, -inf, -745.0)]:
         out.append(("edge", "logaddexp", a, b, want))
         out.append(("edge", "logaddexp", np_arr(a), np_arr(b), want))
-    # the safe subtraction at the log-space corners: never NaN, scalar == 0-d array (KF-safesub-scalar-neginf)
-    for a, b, want in [(-inf, -inf, -inf), (-inf, 1.5, -inf), (-inf, 0.0, -inf)]:
+    # the safe subtraction at the log-space corners: never NaN, scalar == 0-d array (FX-safesub-scalar-neginf)
+    import sys as _sys
+    for a, b, want in [(-inf, -inf, -inf), (-inf, 1.5, -inf), (-inf, 0.0, -inf), (1.0, -inf, _sys.float_info.max), (0.0, -inf, _sys.float_info.max)]:
         out.append(("edge", "safesub", a, b, want))
         out.append(("edge", "safesub", np_arr(a), np_arr(b), want))
     import numpy as _np
